@@ -36,6 +36,7 @@ def run(ctx) -> None:
     rep.rule("C18.R3", "each run starts from a fresh GraphState with per-instance containers", floor=5)
     rep.rule("C18.R4", "no per-run state on runner/executor objects or module-level containers", floor=8)
     rep.rule("C18.R5", "values are copied only by the two documented helpers; bind stores the very object", floor=3)
+    rep.rule("C18.R8", "a run leaves the runner and its executors unchanged: no attribute of theirs is written or mutated on the run/map paths (the user-supplied cache backend excepted)", floor=10)
     rep.rule("C18.R7", "a signature default never becomes a broadcast input of a mapping graph node (every item resolves and copies its own)", floor=1)
     rep.rule("C18.R6", "a mapping graph node does not hand the inner graph's own bound values to the clone path", floor=2)
 
@@ -144,6 +145,19 @@ def run(ctx) -> None:
 
     # ---- R7 ---------------------------------------------------------------------
     check_no_broadcast_defaults(ctx, "C18.R7")
+
+    # ---- R8 ---------------------------------------------------------------------
+    from sa.effects import fmt_effect
+    from sa.model import execute_impl_funcs
+
+    E8 = E
+    fs8 = template_methods(db, "run") + template_methods(db, "map") + execute_impl_funcs(db)
+    for ci in db.classes.values():
+        if ".executors." in ci.module.name:
+            fs8 += [m for m in ci.methods.values() if m.name != "__init__"]
+    for f8 in fs8:
+        ws = [e for e in E8.writes(f8, "self", include_unknown=False) if e.path[:1] not in (("_cache",), ("cache",))]
+        rep.add("C18.R8", f"{f8.qname}:runner-state", not ws, f8.loc(), "no write to / in-place mutation of the runner or executor object" if not ws else f"the run path changes the runner object: {fmt_effect(ws[0])} — state kept on the runner survives the run and leaks into later runs (e.g. a memo keyed by something that does not cover the whole graph configuration)")
 
     # ---- R2 ---------------------------------------------------------------------
     ni = db.func("runners._shared.input_normalization.normalize_inputs")
